@@ -328,7 +328,7 @@ class C04(Check):
                         po("tx", txb, "nested-tx-rct")
                         po("block", hdr + txb, "nested-block-rct")
         for T, d in (("vec_txout", None), ("vec_varint", None), ("vec_hash", None), ("bytesvec", None), ("vec_txin", None),
-                     ("vec_bulletproof", None)):
+                     ("vec_bulletproof", None), ("box_u8", None), ("box_hash", None), ("box_varint", None)):
             for v in HUGE + [CAP // 48, CAP // 48 + 1, CAP // 8, CAP // 8 + 1, CAP // 336, CAP // 336 + 1, CAP + 1, CAP]:
                 for tail in (b"", b"\x00" * 64):
                     add("reser %s %s %s" % (sz, T, hx(leb(v) + tail)), "caplen-" + T)
